@@ -197,9 +197,9 @@ func runC16(r *rt.Run, tier string) {
 	case 0:
 		keyring = openpgp.EntityList{signer}
 	case 1:
-		keyring = openpgp.EntityList{pgpKeys[1-signerIdx%2], signer, pgpKeys[3]}
+		keyring = openpgp.EntityList{pgpKeys[1-signerIdx%2], signer}
 	case 2:
-		keyring = openpgp.EntityList{pgpKeys[(signerIdx+1)%2], pgpKeys[3]}
+		keyring = openpgp.EntityList{pgpKeys[(signerIdx+1)%2]}
 		if signerIdx == 2 {
 			keyring = openpgp.EntityList{pgpKeys[0], pgpKeys[1]}
 		}
